@@ -44,6 +44,36 @@ CHECKS["C10"] = dict(
     technique="Lean 4 invariant + refinement proofs over a literal model of tommy_hashlin and ht-spkitable + differential correspondence",
     design="§5 C10")
 
+CHECKS["C20"] = dict(
+    text="Proof (over tables and function shapes regenerated from the source on every run): every declared enumerator of rtr_socket_state / "
+         "rtr_mgr_status maps to its own name, every other integer to NULL, no read outside the name table, for ALL integers (toStr_spec_*). "
+         "Tie: translator (clang AST + compiled probes) regenerates RtrModel/Generated/Names.lean each run; the real functions are called "
+         "under ASan/UBSan on every enumerator, boundary values and random 32-bit values and compared with the model.",
+    note=TB + "translator tools/gen_constants.py (clang-14 JSON AST for names and function shape, gcc probes for values); gcc/clang modulo-2^32 conversion to the enum type.",
+    technique="Lean 4 theorems (whole-table decide + range split over all Int) over a model generated from the source + differential calls",
+    design="§5 C20")
+CHECKS["C17"] = dict(
+    text="Proof: rtr_init rejects out-of-range intervals; after any End of Data the three timers are exactly what the configured mode prescribes "
+         "for ALL 32-bit values (eod_intervals), hence in range unless accept-any, across any history (history_in_range); version 0 never changes "
+         "them; wait timeout = max 0 (last_update + refresh - now); Serial Notify polls at once. Range constants regenerated from the source and "
+         "proved equal to the RFC 8210 literals. Tie: static functions reached by #include packets.c, real rtr_sync / rtr_wait_for_sync / rtr_start "
+         "on a scripted transport with a fake clock.",
+    note=TB + "clock does not advance inside one transport call except as scripted; time_t does not overflow.",
+    technique="Lean 4 theorems over UInt32 (all values) + generated constants + differential correspondence",
+    design="§5 C17")
+
+CHECKS["C15"] = dict(
+    text="Proof (any number of groups and sockets, any finite history of socket state changes, add/remove-group, start, stop): init/add rejections, "
+         "last group kept, groups strictly ascending by preference after every operation (sorted_inv), a group becomes ESTABLISHED only when all its "
+         "sockets are synced, establishing closes every less-preferred group with a CLOSED callback and an rtr_stop per socket, no rtr_stop is ever "
+         "issued on behalf of a less-preferred group (never_closed_for_worse), an ERROR with no ESTABLISHED group starts the most-preferred CLOSED group. "
+         "Tie: real rtr_mgr.c / rtr_start / rtr_stop / rtr_change_socket_state with parked FSM threads; status callbacks, start/stop log and group "
+         "enumeration compared after every op.",
+    note=TB + "callbacks and API used from one thread (rwlock not exercised); user status callback passive; 'reported ESTABLISHED' read as 'becomes ESTABLISHED' "
+         "(set_status re-issues the unchanged status on every socket state change: theorem rereport_while_unsynced documents it).",
+    technique="Lean 4 invariants by induction over operation histories of a literal model of rtr_mgr.c + differential correspondence",
+    design="§5 C15")
+
 NOT_YET = {}
 
 
